@@ -69,7 +69,9 @@ def render(rend, pyctx, tpl, fmt):
             out.append(tok["s"])
         else:
             found, v = cl.lookup(pyctx, t["p"])
-            out.append(fmt(v) if found else "")
+            conv = t.get("cv", "")
+            f = repr if conv == "r" else str if conv == "s" else fmt
+            out.append(f(v) if found else "")
     return "".join(out)
 
 
@@ -136,6 +138,15 @@ class Replay(object):
     def key_dicts(self, c):
         """dictionaries for the key notation described by the call: [(description, dictionary)]"""
         path, uk, lvl = c["path"], c["uk"], c["lvl"]
+        if uk == "kt-tuple":
+            return [("tuple", tuple(path))]
+        if uk == "kt-list-nonstr":
+            return [("list with None", list(path) + [None]), ("list with 0", [0] + list(path)),
+                    ("list with a tuple", list(path) + [("a",)])]
+        if uk == "kt-none":
+            return [("None", None)]
+        if uk == "kt-int":
+            return [("0", 0), ("5.5", 5.5), ("a set", set(path))]
         out = []
         for extra_first in ((False, True) if lvl else (False,)):
             for extra_val in (("x", {"y": "z"}) if lvl else (None,)):
@@ -185,6 +196,8 @@ class Replay(object):
                 kind = "raised:" + obs["exc"]
             if not good:
                 level = ("two-keys-at-level-%d" % c["lvl"]) if c["lvl"] else c["uk"]
+                if c["uk"].startswith("kt-"):
+                    level = "wrong-type:" + what
                 self.fail("get_recursively:key-dictionary:%s:%s" % (level, kind), rec, context=snap, keys=repr(kd),
                           observed=repr(obs)[:120], allowed=repr(allowed)[:200])
             if pyctx != snap or kd != kd_snap:
@@ -432,14 +445,21 @@ class Replay(object):
         for name, key in forms:
             pyctx = cl.decode_s(rec["ctx"], val, {}, self.rnd)
             snap = copy.deepcopy(pyctx)
-            data = ["data"]
-            value = (data, pyctx)
+            data = self.rnd.choice([["data"], ["data"], 0, None, "", (), False])     # data of every truth value
+            data_snap = copy.deepcopy(data)
+            bare = not pyctx and not isinstance(data, tuple) and self.rnd.random() < 0.5   # a value without context
+            value = data if bare else (data, pyctx)
             made = observe(lambda: self.fns.DeleteContext(key))
             obs = made if not made["ok"] else observe(lambda: made["r"](value))
             self.ncalls += 1
+            if obs["ok"] and bare:
+                r = obs["r"]
+                if not (r is data or (isinstance(r, tuple) and len(r) == 2 and r[0] is data and r[1] == {})):
+                    self.fail("DeleteContext:value-without-context-changed", rec, observed=repr(r)[:80])
+                continue
             if obs["ok"]:
                 r = obs["r"]
-                if not (isinstance(r, tuple) and len(r) == 2 and r[0] is data and data == ["data"]):
+                if not (isinstance(r, tuple) and len(r) == 2 and r[0] is data and data == data_snap):
                     self.fail("DeleteContext:data-touched", rec, context=snap, observed=repr(r)[:80])
                     continue
                 if r[1] is not pyctx:
@@ -762,9 +782,9 @@ def random_trace(ctx, fns, lena, fails, n):
         toks = []
         for _ in range(rnd.randint(0, 3)):
             if rnd.random() < 0.35:
-                toks.append({"t": "lit", "s": rnd.choice(["_", "x", "-"]), "p": []})
+                toks.append({"t": "lit", "s": rnd.choice(["_", "x", "-", ":", "!"]), "p": [], "cv": ""})
             else:
-                toks.append({"t": "fld", "s": "", "p": rpath(d, 1, 3)})
+                toks.append({"t": "fld", "s": "", "p": rpath(d, 1, 3), "cv": ""})
         return toks
 
     for _ in range(n):
@@ -789,6 +809,9 @@ def random_trace(ctx, fns, lena, fails, n):
             elif x < 0.12:
                 # one formatter, several contexts
                 call["op"], call["uk"], call["tpl"] = "format", "str", rtpl(d)
+                for t in call["tpl"]:
+                    if t["t"] == "fld" and rnd.random() < 0.3:
+                        t["cv"] = rnd.choice(["r", "s"])
                 text = cl.template_text(call["tpl"])
                 fmt = fns.format_context(text)
                 toks = [{"t": "lit", "s": t["s"]} if t["t"] == "lit" else {"t": "val"} for t in call["tpl"]]
@@ -832,7 +855,7 @@ def random_trace(ctx, fns, lena, fails, n):
                 else:
                     call["uk"] = "str"
                     if kind < 0.65:
-                        call["tpl"] = [{"t": "fld", "s": "", "p": rpath(d, 1, 3)}]
+                        call["tpl"] = [{"t": "fld", "s": "", "p": rpath(d, 1, 3), "cv": ""}]
                         o["value"] = True
                         kwargs["value"] = True
                         opt = rnd.choice(["def", "skip", "none", "none"])
@@ -991,6 +1014,14 @@ def run(ctx):
                "concatenates str(value) (jinja2) / format(value) (format_context)")
     rnd = random.Random(ctx.seed)
     tmod, tcfg = "Trace_ContextOps", "Trace_ContextOps.cfg"
+    # the context may be an instance of a dictionary subclass (lena.context.Context, a plain subclass)
+    cl.CTX_CLASSES[:] = [dict, dict, dict, cl.MyDict]
+    try:
+        probe = copy.deepcopy(fns.Context({"a": fns.Context({"b": 1})}))
+        if type(probe) is fns.Context and probe == {"a": {"b": 1}}:
+            cl.CTX_CLASSES.append(fns.Context)
+    except Exception:    # noqa
+        pass
     rp = Replay(ctx, fns, lena, rnd)
 
     def repo_job():
@@ -1005,14 +1036,17 @@ def run(ctx):
         # elements applied to a flow of three values: stateless, every outcome a function of (config, value)
         f_flow = jobs.submit(ctx.mc, "ContextOps", "ContextOps_%s_flow.cfg" % tag, coverage=True,
                              must_cover=("NextValue", "USet", "DDel", "WUpdate"))
-        exports = [jobs.submit(ctx.export, "ContextOps", "ContextOps_make_export.cfg", min_records=100),
+        exports = [jobs.submit(ctx.export, "ContextOps", "ContextOps_unprintable.cfg", min_records=10),
+                   jobs.submit(ctx.export, "ContextOps", "ContextOps_make_export.cfg", min_records=100),
                    jobs.submit(ctx.export, "ContextOps", "ContextOps_%s_flow_export.cfg" % tag, min_records=1000),
                    jobs.submit(ctx.export, "ContextOps", "ContextOps_%s_export.cfg" % tag, min_records=1000)]
         f_repo = jobs.submit(repo_job)
+        deep_index = -1
         trace = random_trace(ctx, fns, lena, rp.fails, 20000 if ctx.thorough else 3000)
         f_trace = jobs.submit(ctx.validate, tmod, tcfg, trace)
         f_demo = jobs.submit(ctx.binding_demo, tmod, tcfg, trace, corrupt)
         if ctx.thorough:
+            deep_index = len(exports)
             exports.append(jobs.submit(ctx.export, "ContextOps", "ContextOps_thorough_deep_export.cfg",
                                        min_records=1000))
 
@@ -1024,10 +1058,13 @@ def run(ctx):
             f_more = jobs.submit(more)
         misc(ctx, fns, rp.fails)
         nval = 2
-        for fut in exports:
+        for fi, fut in enumerate(exports):
             recs = fut.result()
+            stride = 2 if (ctx.thorough and fi == deep_index) else 1
             ctx.sample({"spec_behaviour": recs[(2 * len(recs)) // 3]})
-            for group in group_records(recs):
+            for gi, group in enumerate(group_records(recs)):
+                if stride > 1 and (gi + ctx.seed) % stride:
+                    continue            # sampled, not exhausted
                 rp.run_group(group, nval)
                 rec = group[0]
                 ctx.case([rec["call"], rec["flow"], rec["ctx2"]],
